@@ -32,6 +32,8 @@ def parsed_name(name):
     """how a prefixed name reads after parsing: prefixes of namespaces the converter does not know stay as {uri}local"""
     if ":" in name:
         p, l = name.split(":", 1)
+        if "~" in p:
+            return "{urn:verif:rebound:%s}%s" % (p.split("~", 1)[1], l)      # a prefix re-bound to another namespace on that element
         if p not in KNOWN_PREFIXES:
             return "{%s}%s" % (B.COMMON[p], l)
     return name
